@@ -9,7 +9,7 @@ Real == { c \in Cases : c.exp.out # "skip" }
 ASSUME PrintT(<<"COUNTS", Cardinality(Trees), Cardinality(Real)>>)
 ASSUME \A c \in Real : Consistent(c.exp.t)
 ASSUME \A c \in Real : c.exp.out = "false" => c.exp.t = c.tree
-MvIsCpRm == \A t \in Trees, p \in {"a.txt", "d/b.txt"}, q \in FilePaths :
+MvIsCpRm == \A t \in Trees, p \in Sources, q \in FilePaths :
    LET m == Eff([cmd |-> "mv", a |-> <<p, q>>], t)  c == Eff([cmd |-> "cp", a |-> <<p, q>>], t) IN
    (t[p].k = "file" /\ p # q /\ m.out = "true") => (c.out = "true" /\ m.t = Eff([cmd |-> "rm", a |-> <<p>>], c.t).t)
 ASSUME MvIsCpRm
